@@ -296,8 +296,8 @@ def run(repo, rep, tier):
                 env = {wname: fc.fin(1), fill.params[1]: ("obj", "datum")}
                 if state == "empty":
                     env[f"{sn}.entries"] = fc.fin(0)
-                    env[f"{sn}.mean"] = fc.fin(0)
-                    env[f"{sn}.varianceTimesEntries"] = fc.fin(0)
+                    env[f"{sn}.mean"] = fc.NAN           # the placeholders __init__ sets
+                    env[f"{sn}.varianceTimesEntries"] = fc.NAN
                 else:
                     env[f"{sn}.entries"] = fc.fin(1)
                     env[f"{sn}.mean"] = dict(classes)[state]
@@ -343,6 +343,17 @@ def run(repo, rep, tier):
     # ---------------- R2.5 Bag: every numeric key (component) is NaN-normalised before it indexes the value-to-weight map
     r5 = rep.rule("R2.5", "Bag fill path: numeric key components pass through the NaN-normalising converter (NaN is not equal to itself as a dict key)", floor=2)
     bag_key_normalisation(repo, rep, r5, "R2.5")
+
+
+def want_mean_class(state, q):
+    """IEEE class of the weighted mean of data summarised by a mean of class `state` together with data of class `q`"""
+    if "nan" in (state, q):
+        return "nan"
+    if state == "finite":
+        return q
+    if q == "finite" or q == state:
+        return state
+    return "nan"
 
 
 def nan_normalisers(repo):
